@@ -57,6 +57,7 @@ Inductive op :=
 | DefMacro (m : str) (body : list op)   (* {% macro m a %}body{% endmacro %} *)
 | CallMacro (m : str) (e : expr)        (* {% call m e %} *)
 | DateNow (today : bool) (fmt : expr)   (* {{ 'now' | date: fmt }} / {{ 'today' | date: fmt }} *)
+| DateOf (s : str) (fmt : expr)         (* {{ 's' | date: fmt }}: a date string that names only part of a date *)
 | Translate (x : str)                   (* {% translate %}Hi {{ x }}{% endtranslate %} *)
 | Include (name : str)                  (* {% include 'name' %} *)
 | Extends (name : str)                  (* {% extends 'name' %} *)
@@ -99,12 +100,34 @@ Definition escape (s : str) : str := flat_map esc1 s.
 Definition up1 (c : N) : N := if ((97 <=? c) && (c <=? 122))%N then (c - 32)%N else c.
 Definition upper (s : str) : str := map up1 s.
 
-(** The harness' clock: tick k is 2001-01-01 12:00:00 plus k days.  The text
-    of a date / datetime below is exact for k < 31 (the tie never advances the
-    clock further; the theorems do not depend on it). *)
+(** The harness' clock: tick k is Saturday 2000-12-30 12:00:00 plus k days, so
+    the first ticks cross midnight, a month boundary and a year boundary.  The
+    text of a date / datetime below is exact for k <= 32 (the tie never
+    advances the clock further; the theorems do not depend on it). *)
+Definition pad2 (n : N) : str := if (n <? 10)%N then 48%N :: dec_N n else dec_N n.
+Definition year_str (k : N) : str :=
+  if (k <? 2)%N then [50;48;48;48]%N else [50;48;48;49]%N.          (* 2000 / 2001 *)
 Definition date_str (k : N) : str :=
-  [50;48;48;49;45;48;49;45]%N                      (* 2001-01- *)
-  ++ (if (k + 1 <? 10)%N then 48%N :: dec_N (k + 1) else dec_N (k + 1)).
+  if (k <? 2)%N then [50;48;48;48;45;49;50;45]%N ++ dec_N (30 + k)   (* 2000-12-30, 2000-12-31 *)
+  else [50;48;48;49;45;48;49;45]%N ++ pad2 (k - 1).                  (* 2001-01-dd *)
+
+(** The date strings of the tie and what dateutil's parser makes of them with
+    the fields they do not name taken from the clock (filters/misc.py date():
+    'now' / 'today' are datetime.now(); anything else goes through
+    dateutil.parser.parse, whose default is datetime.now() at midnight; a string
+    it cannot parse is returned unchanged). *)
+Definition s_now : str := [110;111;119]%N.
+Definition s_today : str := [116;111;100;97;121]%N.
+Definition s_1030 : str := [49;48;58;51;48]%N.                          (* 10:30 *)
+Definition s_march3 : str := [77;97;114;99;104;32;51]%N.                (* March 3 *)
+Definition s_friday : str := [70;114;105;100;97;121;32;57;97;109]%N.    (* Friday 9am *)
+
+Definition date_of_string (s : str) (k : N) : option str :=
+  if str_eqb s s_now || str_eqb s s_today || str_eqb s s_1030 then Some (date_str k)
+  else if str_eqb s s_march3 then Some (year_str k ++ [45;48;51;45;48;51]%N)     (* -03-03 *)
+  else if str_eqb s s_friday then Some (date_str (k + (6 + 7 - k mod 7) mod 7))  (* the Friday on or after today *)
+  else None.
+
 Definition noon : str := [32;49;50;58;48;48;58;48;48]%N.   (* _12:00:00 *)
 Definition ymd : str := [37;89;45;37;109;45;37;100]%N.   (* "%Y-%m-%d" *)
 
@@ -118,7 +141,7 @@ Fixpoint prefix_of (p s : str) : option str :=
 (** strftime over the formats of the tie: the directive sequence "%Y-%m-%d"
     (the only one the harness uses) becomes the date; every other
     character is copied. *)
-Fixpoint strftime (fuel : nat) (fmt : str) (k : N) : str :=
+Fixpoint strftime (fuel : nat) (fmt : str) (ds : str) : str :=
   match fuel with
   | O => []
   | S f =>
@@ -126,8 +149,8 @@ Fixpoint strftime (fuel : nat) (fmt : str) (k : N) : str :=
       | [] => []
       | c :: rest =>
           match prefix_of ymd fmt with
-          | Some rest' => date_str k ++ strftime f rest' k
-          | None => c :: strftime f rest k
+          | Some rest' => ds ++ strftime f rest' ds
+          | None => c :: strftime f rest ds
           end
       end
   end.
@@ -187,11 +210,17 @@ Definition apply_filter (b : fbeh) (auto : bool) (clk : N) (v : val) (args : lis
           match v with
           | VUndef => Ok (VStr [] false)
           | VStr dat _ =>
-              (* only reached with dat = 'now' / 'today' *)
               match f with
-              | VUndef => Ok (VStr dat false)
-              | VStr fs fsafe => Ok (VStr (strftime (S (length fs)) fs clk) (auto && fsafe))
-              | _ => LErr LiquidTypeError None   (* strftime() argument 1 must be str *)
+              | VUndef => Ok (VStr dat false)       (* is_undefined(fmt): str(dat) *)
+              | _ =>
+                  match date_of_string dat clk with
+                  | None => Ok (VStr dat false)     (* ParserError: the input, unchanged *)
+                  | Some ds =>
+                      match f with
+                      | VStr fs fsafe => Ok (VStr (strftime (S (length fs)) fs ds) (auto && fsafe))
+                      | _ => LErr LiquidTypeError None   (* strftime() argument 1 must be str *)
+                      end
+                  end
               end
           | _ => LErr LiquidTypeError None
           end
@@ -256,9 +285,6 @@ Definition out (r : rctx) (s : str) : rctx := set_out r (r_out r ++ s).
     programs of this model read, so they are not represented. *)
 Definition scope (r : rctx) : list frame :=
   FMap (r_locals r) :: r_globals r ++ [FBuiltin; FCounters (r_counters r)].
-
-Definition s_now : str := [110;111;119]%N.
-Definition s_today : str := [116;111;100;97;121]%N.
 
 Fixpoint lookup_frames (clk : N) (fs : list frame) (x : str) : val :=
   match fs with
@@ -383,6 +409,13 @@ Definition simple_op (X : renv) (o : op) (r : rctx) : res rctx :=
       | Some b =>
           do v <- apply_filter b auto clk (VStr (if today then s_today else s_now) auto)
                     [eval X r fmt] ;;
+          Ok (out r (to_s auto v))
+      end
+  | DateOf ds fmt =>
+      match assoc s_date (x_filters X) with
+      | None => LErr UnknownFilterError None
+      | Some b =>
+          do v <- apply_filter b auto clk (VStr ds auto) [eval X r fmt] ;;
           Ok (out r (to_s auto v))
       end
   | Translate x => Ok (out r (s_hi ++ to_s auto (lookup clk r x)))
@@ -594,7 +627,7 @@ Fixpoint collect_gen (fuel : nat) (p : prog) (c : cachet) : res (list str) * cac
           | Emit x | EmitFilt x _ | Translate x => k [x] c
           | EmitField _ => k [s_d] c
           | ForCont arr _ | ForAll arr => k [arr; s_v] c
-          | Assign _ e | CallMacro _ e | DateNow _ e => k (expr_vars e) c
+          | Assign _ e | CallMacro _ e | DateNow _ e | DateOf _ e => k (expr_vars e) c
           | Capture _ body | Block _ body | DefMacro _ body => bindC (collect_gen f body c) k
           | Include name | Extends name | RenderP name =>
               bindC (ld c name) (fun t c1 => bindC (collect_gen f t c1) k)
@@ -668,7 +701,7 @@ Fixpoint parse_op (fuel : nat) (tags fnames : list str) (o : op) : option lclass
         | Cycle _ [] => Some LiquidSyntaxError
         | Broken _ => Some LiquidSyntaxError
         | EmitFilt _ fn => if mem_str fn fnames then None else Some UnknownFilterError
-        | DateNow _ _ => if mem_str s_date fnames then None else Some UnknownFilterError
+        | DateNow _ _ | DateOf _ _ => if mem_str s_date fnames then None else Some UnknownFilterError
         | Capture _ body | DefMacro _ body | Block _ body => first_err (parse_op f tags fnames) body
         | _ => None
         end
